@@ -368,9 +368,9 @@ def cases(tier, seed):
     for isa in isas(tier):
         # ---- rank 1: dynamic seq views of an owning tensor (1-D view class) --------------------------------------
         for N in range(2, 10 if not T else 13):
-            for (d, s) in pick_pairs(rng, N, 4 if not T else 24):
+            for (d, s) in pick_pairs(rng, N, 3 if not T else 24):
                 out.append(view_case('seq1d', INT, (N,), [d], [[s]], rng.choice(INT_OPS), 'v', isa, seq_txt))
-            for (d, s) in pick_pairs(rng, N, 1 if not T else 6, want=OVERLAP):
+            for (d, s) in pick_pairs(rng, N, (N % 2) if not T else 6, want=OVERLAP):
                 out.append(view_case('seq1d', ftype(), (N,), [d], [[s]], rng.choice(ALL_OPS), 'v', isa, seq_txt))
         # ---- rank 1: fixed fseq views (1-D fixed view class) -----------------------------------------------------
         for N in range(3, 10 if not T else 13):
@@ -382,7 +382,7 @@ def cases(tier, seed):
                         ty = INT if rng.random() < 0.75 else ftype()
                         out.append(view_case('fseq1d', ty, (N,), [d], [[s]], rng.choice(ops_for(ty)), 'v', isa, fseq_txt))
         if not T:
-            for N in (6, 9):
+            for N in (9,):
                 for (d, s) in pick_pairs(rng, N, 1, want=OVERLAP):
                     if not full(d, N): out.append(view_case('fseq1d', INT, (N,), [d], [[s]], rng.choice(INT_OPS), 'v', isa, fseq_txt))
         # all five operators on the test-suite patterns (shift right = hazardous in storage order, shift left, strided)
@@ -395,7 +395,7 @@ def cases(tier, seed):
             for op in ALL_OPS:
                 out.append(view_case('fseq1d', FLT, (N,), [d], [[s]], op, 'v', isa, fseq_txt))
         # right-hand sides that are expressions of one or two overlapping views
-        for N in ((5, 8, 9) if not T else range(3, 12)):
+        for N in ((8, 9) if not T else range(3, 12)):
             for rhs in ('sum2', 'diff2', 'v+v', 'neg'):
                 for vk, vtxt in (('seq1d', seq_txt), ('fseq1d', fseq_txt)):
                     if vk == 'fseq1d' and not T and not (N == 8 and rhs == 'sum2'): continue
@@ -408,10 +408,10 @@ def cases(tier, seed):
                         out.append(view_case(vk + '-expr', ty, (N,), [d], srcs, rng.choice(ops_for(ty)), rhs, isa, vtxt))
         # destination seq / source fseq and the other way round
         for N in ((6, 9) if not T else range(4, 11)):
-            for (d, s) in pick_pairs(rng, N, 2 if not T else 4, want=OVERLAP):
+            for (d, s) in pick_pairs(rng, N, 1 if not T else 4, want=OVERLAP):
                 if full(s, N) or full(d, N): continue
                 out.append(view_case('seq-from-fseq', INT, (N,), [d], [[s]], rng.choice(INT_OPS), 'v', isa, seq_txt, srctxt=fseq_txt))
-                if T or N == 9: out.append(view_case('fseq-from-seq', INT, (N,), [d], [[s]], rng.choice(INT_OPS), 'v', isa, fseq_txt, srctxt=seq_txt))
+                if T or (N == 9 and isa != 'avx2'): out.append(view_case('fseq-from-seq', INT, (N,), [d], [[s]], rng.choice(INT_OPS), 'v', isa, fseq_txt, srctxt=seq_txt))
         # FASTOR_USE_VECTORISED_EXPR_ASSIGN (strided vector paths)
         for N in ((9,) if not T else (5, 9, 12)):
             for (d, s) in pick_pairs(rng, N, 3 if not T else 8, want=OVERLAP):
@@ -419,7 +419,7 @@ def cases(tier, seed):
         # ---- rank 2 -----------------------------------------------------------------------------------------------
         shapes2 = [(2, 3), (3, 4), (4, 5), (3, 9)] if not T else [(2, 2), (2, 3), (3, 3), (3, 4), (4, 4), (4, 5), (5, 4), (3, 9), (2, 17), (5, 6)]
         for shape in shapes2:
-            for (dst, src) in pick_pairs_nd(rng, shape, 4 if not T else 16):
+            for (dst, src) in pick_pairs_nd(rng, shape, 3 if not T else 16):
                 ty = INT if rng.random() < 0.75 else ftype()
                 out.append(view_case('seq2d', ty, shape, dst, [src], rng.choice(ops_for(ty)), rhs1(ty), isa, seq_txt))
             for (dst, src) in pick_pairs_nd(rng, shape, 1 if not T else 10):
@@ -460,40 +460,42 @@ def cases(tier, seed):
                         ty = INT if rng.random() < 0.75 else ftype()
                         out.append(twice_case(ty, N, d, s, rng.choice(ops_for(ty)), rng.choice(ops_for(ty)), kind, isa, vtxt))
         # ---- index-tensor views: symbolic duplicate-free destination indices, symbolic source indices ---------
-        its = [((5,), (2,)), ((6,), (3,)), ((2, 3), (2, 2))] if not T else [((4,), (2,)), ((5,), (2,)), ((6,), (3,)), ((7,), (3,)), ((8,), (4,)), ((2, 3), (2, 2)), ((3, 3), (2, 2)), ((2, 2, 2), (1, 2, 2))]
+        # (the noalias path scatters into a copy through symbolic addresses and then gathers from it: the formula grows
+        #  quickly; 2 indices with every operator, 3 indices with `=` only -- larger ones did not finish in 300 s)
+        its = [((4,), (2,)), ((5,), (2,)), ((6,), (3,)), ((2, 3), (1, 2))] if not T else [((3,), (2,)), ((4,), (2,)), ((5,), (2,)), ((6,), (2,)), ((6,), (3,)), ((7,), (3,)), ((2, 3), (1, 2)), ((2, 2), (2, 1)), ((2, 2, 2), (1, 1, 2))]
         for (shape, ishape) in its:
-            big = prod(shape) >= 8
+            big = prod(ishape) >= 3
             for op in (INT_OPS if not big else ['=']):
                 out.append(itview_case(INT, shape, ishape, op, 'v', isa))
             if not big:
                 ty = ftype()
                 for op in (ALL_OPS if T else sample(rng, ALL_OPS, 1)):
                     out.append(itview_case(ty, shape, ishape, op, 'v', isa))
-                out.append(itview_case(INT, shape, ishape, rng.choice(INT_OPS), 'v+v', isa, ity=rng.choice([I64, U64])))
+                out.append(itview_case(INT, shape, ishape, rng.choice(INT_OPS), 'v', isa, ity=rng.choice([I64, U64])))
             out.append(itview_case(INT, shape, ishape, rng.choice(INT_OPS), rng.choice(['v', 'v+v']), isa, srckind='self', noalias=False))
             if len(shape) == 1:
                 N = shape[0]; K = ishape[0]
                 rs = [r for r in all_ranges(N) if rsize(*r) == K]
-                for r in sample(rng, rs, 2 if not T else 4):
+                for r in sample(rng, rs, 1 if not T else 4):
                     out.append(itview_case(INT, shape, ishape, rng.choice(INT_OPS), 'v', isa, srckind='seq', src_range=r))
                     out.append(seq_from_it_case(INT, N, r, rng.choice(INT_OPS), isa, ity=rng.choice([INT, INT, I64, U64])))
-                if T or N == 6:
+                if T or (N == 6 and isa == 'avx2'):
                     r = rng.choice(rs)
                     if K < N: out.append(seq_from_it_case(INT, N, r, rng.choice(INT_OPS), isa, fixed=True))
         # ---- destination = whole tensor spelled as a view ---------------------------------------------------------
         if not T:
             sp = {'sse2': 'fall', 'avx2': 'all', 'avx512': 'fseq'}.get(isa, 'fall')
             out.append(whole_from_it_case(INT, (5,), rng.choice(['+=', '-=']), isa, sp))
-            out.append(whole_from_it_case(INT, (5,), rng.choice(INT_OPS), isa, rng.choice(['seq', 'seqlast'])))
+            out.append(whole_from_it_case(INT, (4,), rng.choice(INT_OPS), isa, rng.choice(['seq', 'seqlast'])))
         else:
-            for shape in [(3,), (5,), (8,), (2, 3)]:
-                for sp in ('fall', 'all', 'fseq') + (('seq', 'seqlast') if len(shape) == 1 else ()):
+            for shape in [(3,), (5,), (2, 3)]:
+                for sp in ('fall', 'all', 'fseq') + (('seq', 'seqlast') if shape == (3,) else ()):
                     for op in INT_OPS:
                         out.append(whole_from_it_case(INT, shape, op, isa, sp))
         # ---- mask views -----------------------------------------------------------------------------------------------
         for shape in ([(5,), (2, 3)] if not T else [(3,), (5,), (9,), (12,), (2, 3), (3, 4), (2, 2, 3)]):
             for op in (INT_OPS if T else [rng.choice(INT_OPS)]):
-                out.append(mask_case(INT, shape, op, 'v', isa, 'it'))
+                if T or (shape == (5,)) == (isa != 'avx2'): out.append(mask_case(INT, shape, op, 'v', isa, 'it'))
             if T: out.append(mask_case(ftype(), shape, rng.choice(ALL_OPS), 'v', isa, 'it'))
             out.append(mask_case(INT, shape, rng.choice(INT_OPS), rng.choice(['v', 'v+v']), isa, 'self', noalias=False))
             out.append(mask_case(INT, shape, rng.choice(INT_OPS), rng.choice(['v', 'v+v']), isa, 'whole', noalias=False))
